@@ -113,6 +113,49 @@ def lit_of(node, lits, file):
     raise T.TranslateError(file, node, "operator key")
 
 
+def _single_assign(st):
+    """(name, value) of `name = value` / `name: T = value`, else None"""
+    if isinstance(st, ast.Assign) and len(st.targets) == 1 and isinstance(st.targets[0], ast.Name):
+        return st.targets[0].id, st.value
+    if isinstance(st, ast.AnnAssign) and isinstance(st.target, ast.Name) and st.value is not None:
+        return st.target.id, st.value
+    return None
+
+
+def _straighten(stmts, fn):
+    """straight-line body of a differentiator function: single assignments followed by one return.  Two equivalent
+    spellings are normalised to that shape (anything else is rejected):
+      if c: x = a  else: x = b              ->  x = a if c else b
+      if c: return a   (then)  return b     ->  return a if c else b"""
+    out = []
+    i = 0
+    while i < len(stmts):
+        st = stmts[i]
+        last = i == len(stmts) - 1
+        if _single_assign(st) and not last:
+            n, v = _single_assign(st)
+            out.append(ast.copy_location(ast.Assign(targets=[ast.Name(id=n, ctx=ast.Store())], value=v), st))
+        elif isinstance(st, ast.If) and len(st.body) == 1 and len(st.orelse) == 1 and _single_assign(st.body[0]) \
+                and _single_assign(st.orelse[0]) and _single_assign(st.body[0])[0] == _single_assign(st.orelse[0])[0] and not last:
+            n = _single_assign(st.body[0])[0]
+            v = ast.copy_location(ast.IfExp(test=st.test, body=_single_assign(st.body[0])[1],
+                                            orelse=_single_assign(st.orelse[0])[1]), st)
+            out.append(ast.copy_location(ast.Assign(targets=[ast.Name(id=n, ctx=ast.Store())], value=v), st))
+        elif isinstance(st, ast.If) and len(st.body) == 1 and isinstance(st.body[0], ast.Return) and not st.orelse \
+                and i == len(stmts) - 2 and isinstance(stmts[i + 1], ast.Return):
+            v = ast.copy_location(ast.IfExp(test=st.test, body=st.body[0].value, orelse=stmts[i + 1].value), st)
+            out.append(ast.copy_location(ast.Return(value=v), st))
+            return out
+        elif isinstance(st, ast.Return) and last:
+            out.append(st)
+        else:
+            raise T.TranslateError(FILE, st, "differentiator function: single assignments followed by one return expected")
+        i += 1
+    if not out or not isinstance(out[-1], ast.Return):
+        raise T.TranslateError(FILE, fn, "differentiator function must end in return")
+    return out
+
+
 def gen_opstable(repo):
     lits = T.load_literals(repo)
     tree = ast.parse(open(os.path.join(repo, FILE)).read())
@@ -150,10 +193,8 @@ def gen_opstable(repo):
         elif isinstance(v, ast.Name) and v.id.lstrip("_") in [f.lstrip("_") for f in funcs]:
             fn = [f for n, f in funcs.items() if n.lstrip("_") == v.id.lstrip("_")][0]
             params = [a.arg for a in fn.args.args]
-            stmts = T.strip_doc(fn.body)
+            stmts = _straighten(T.strip_doc(fn.body), fn)
             assigns = stmts[:-1]
-            if not isinstance(stmts[-1], ast.Return):
-                raise T.TranslateError(FILE, fn, "differentiator function must end in return")
             body = stmts[-1].value
         else:
             raise T.TranslateError(FILE, v, "differentiator " + name)
